@@ -137,11 +137,17 @@ CHECKS = {
 
 EXTRA = {
     "C01": " Candidates refused once are offered again later (verdicts must not depend on history). A node lane delivers candidates "
-           "over the wire to a real node, reloads its store by a restart and checks that nothing refused is part of the rebuilt state.",
+           "over the wire to a real node, reloads its store by a restart and checks that nothing refused is part of the rebuilt state."
+           " A two-thread lane holds one validation at statement boundaries of the validation modules (sys.monitoring) while another thread validates another candidate: verdicts must be the solo verdicts.",
     "C02": " Candidates refused once are offered again later. A node lane delivers candidates over the wire with an emulated miner "
-           "acting inside the validation window.",
+           "acting inside the validation window."
+           " A two-thread lane holds one validation at statement boundaries of the validation modules (sys.monitoring) while another thread validates another candidate: verdicts must be the solo verdicts.",
     "C05": " Candidates refused once are offered again later. The miner front end is driven across retarget-period boundaries with "
-           "a ticking clock and every candidate it hands out is judged by the reference and the node's own validation.",
+           "a ticking clock and every candidate it hands out is judged by the reference and the node's own validation."
+           " A two-thread lane holds one validation at statement boundaries of the validation modules (sys.monitoring) while another thread validates another candidate: verdicts must be the solo verdicts.",
+    "C07": " Every id asked of a Transaction or Block anywhere in the workload is compared with the hash of its canonical encoding "
+           "(invariant at a hook). A two-thread lane holds one decode/encode/id computation at statement boundaries of the codec "
+           "modules (sys.monitoring) while another thread does the same with another value.",
     "C08": " A thread lane hands blocks to the store while another thread flushes, with a delay injected after the sqlite write. "
            "A large-store lane writes and reloads thousands of blocks on several equal-height branches.",
     "C06": " A genuine block is decoded before each truncated one (the decode result must not depend on earlier decodes).",
